@@ -130,7 +130,8 @@ def front(v, tier, seed):
     wcfg = "Notify_gen_window.cfg" if tier == "quick" else "Notify_gen_window_t.cfg"
     add(("gen", "window"), tlc("NotifyGen", wcfg, workers=2, timeout=1500, heap_gb=6))
     exh = (("cachex_list", "Notify_gen_cachex_list.cfg"), ("cachex_read", "Notify_gen_cachex_read.cfg"),
-           ("subs", "Notify_gen_subs.cfg"), ("listen", "Notify_gen_listen.cfg"))
+           ("subs", "Notify_gen_subs.cfg"), ("listen", "Notify_gen_listen.cfg"),
+           ("listen_g", "Notify_gen_listen_g.cfg"))
     for tag, c in exh:
         add(("gen", tag), tlc("NotifyGen", c, workers=1, timeout=1500, heap_gb=4))
     num = {"quick": 100, "thorough": 2500}[tier]
@@ -238,11 +239,12 @@ CONF = {
     "ttl": (["L1", "M1"], ["L1", "M1"], 60000, [], ["u1"]),
     "off": (["L1", "M1", "M2"], ["L1", "M1"], 0, ["tools"], ["u1"]),
     "listen": (["M1", "M2"], ["M1", "M2"], 0, [], ["u1", "u2"]),
+    "listen_g": (["M1"], ["M1"], 0, [], ["u1", "u2"]),
 }
 
 
 INIT_SUB = {"cachex_read": ["M1"]}
-EXHAUSTIVE = ("window", "cachex_list", "cachex_read", "subs", "listen")
+EXHAUSTIVE = ("window", "cachex_list", "cachex_read", "subs", "listen", "listen_g")
 # ServerOptions.PageSize: the base features alone fill two pages
 PAGED = {"cachex_list": [2], "ttl": [0, 2], "lead": [0, 2]}
 
@@ -534,13 +536,21 @@ def run(tier, seed, replay):
         lis4 = [k for k in lis if len(json.loads(k[1])) > 3]
         keep |= set(k for k in lis if len(json.loads(k[1])) <= 3)
         keep |= set(rng.sample(lis4, min(len(lis4), {"quick": 300, "thorough": 4000}[tier])))
+        # ... with the server's UnsubscribeHandler held (the clean-up of a failed or cancelled request is pending when the
+        # resource is updated): a seeded sample; thorough: all up to 4 steps and a sample of the 5-step ones
+        lig = sorted(k for k in groups if k[0] == "listen_g" and '"hold"' in k[1] and listen_then_update(json.loads(k[1])))
+        if tier == "quick":
+            keep |= set(rng.sample(lig, min(len(lig), 200)))
+        else:
+            lig5 = [k for k in lig if len(json.loads(k[1])) > 4]
+            keep |= set(k for k in lig if len(json.loads(k[1])) <= 4) | set(rng.sample(lig5, min(len(lig5), 1500)))
         for (tag, key), ps in sorted(groups.items()):
             steps = json.loads(key)
             if tag.startswith("cachex") and len(steps) > 5 and (tag, key) not in keep:
                 continue
             if tag == "subs" and ('"updated"' not in key or (len(steps) > 3 and (tag, key) not in keep)):
                 continue
-            if tag == "listen" and (tag, key) not in keep:
+            if tag in ("listen", "listen_g") and (tag, key) not in keep:
                 continue
             sessions, init_on, ttl, cap_off, uris = CONF[tag]
             racy = any(s[0] == "tchange" for s in steps)
